@@ -9,7 +9,8 @@ SQ_MODEL = """
 /* products are an uninterpreted COMMUTATIVE function MUL (no solver here decides 53-bit or 64-bit multiplications): the unit decides
    WHICH products enter WHICH coefficient with which sign and factor, exactly; additions/subtractions are real IEEE operations */
 double __CPROVER_uninterpreted_mul(double, double);
-#define MUL(a, b) (((double)(a)) <= ((double)(b)) ? __CPROVER_uninterpreted_mul((a), (b)) : __CPROVER_uninterpreted_mul((b), (a)))
+#define CZ_(x) ((double)(x) + 0.0)   /* -0 -> +0, so that equal values have equal bits */
+#define MUL(a, b) (CZ_(a) <= CZ_(b) ? __CPROVER_uninterpreted_mul(CZ_(a), CZ_(b)) : __CPROVER_uninterpreted_mul(CZ_(b), CZ_(a)))
 typedef struct { real_type v[3]; } Real3;
 typedef struct { real_type second[3]; real_type first[3]; real_type zeroth; } SimpleQuadric;   /* a x^2 + b y^2 + c z^2 + d x + e y + f z + g */
 typedef struct { Real3 tr_; } Translation;
@@ -43,7 +44,7 @@ __CPROVER_assigns()
 #define T_(i) (self->tr_->tr_.v[i])
 __CPROVER_ensures(__CPROVER_return_value.second[0] == other->second[0] && __CPROVER_return_value.second[1] == other->second[1] && __CPROVER_return_value.second[2] == other->second[2])
 #define EQN(a, b) ((a) == (b) || (__CPROVER_isnand(a) && __CPROVER_isnand(b)))
-#define D_(i) (other->first[i] - MUL(MUL(2, other->second[i]), T_(i)))                         /* d - 2 a t */
+#define D_(i) (other->first[i] - (MUL(other->second[i], T_(i)) + MUL(other->second[i], T_(i))))   /* d - 2 a t (doubling is exact) */                         /* d - 2 a t */
 #define G_(i) (MUL(other->second[i], MUL(T_(i), T_(i))) - MUL(other->first[i], T_(i)))         /* a t^2 - d t */
 __CPROVER_ensures(EQN(__CPROVER_return_value.first[0], D_(0)) && EQN(__CPROVER_return_value.first[1], D_(1)) && EQN(__CPROVER_return_value.first[2], D_(2)))
 __CPROVER_ensures(EQN(__CPROVER_return_value.zeroth, ((other->zeroth + G_(0)) + G_(1)) + G_(2)))
